@@ -280,6 +280,99 @@ def core(msg):
     return msg.strip().splitlines()[-1][-60:]
 
 
+def _gen_special(kind):
+    """Generator failures that do not come from the body itself, and failures that an outer generator handles."""
+    import hdl21 as h
+    from typing import Any
+
+    h.generator.cache.reset()
+
+    @h.paramclass
+    class PA:
+        v = h.Param(dtype=Any, desc="anything", default=None)
+        k = h.Param(dtype=int, desc="k", default=1)
+
+    shared = h.Module(name="SharedResult")
+    shared.x = h.Port()
+    runs = dict(n=0)
+
+    @h.generator
+    def Fresh(p: PA) -> h.Module:
+        runs["n"] += 1
+        m = h.Module()
+        m.x = h.Port()
+        return m
+
+    @h.generator
+    def Handing(p: PA) -> h.Module:  # hands back a module that exists already
+        runs["n"] += 1
+        return shared
+
+    class Opaque:  # a value the naming encoder cannot serialise: the call fails *after* the body has run
+        pass
+
+    if kind in ("unnameable_fresh", "unnameable_handed"):
+        g = Fresh if kind == "unnameable_fresh" else Handing
+        val = Opaque()
+        errs = []
+        for attempt in range(3):
+            try:
+                g(PA(v=val))
+                errs.append("returned")
+            except Exception as e:
+                errs.append(type(e).__name__)
+        if len(set(errs)) != 1:
+            return ("bad", f"identical calls whose result cannot be named gave {errs}: the failure is not repeated")
+        if errs[0] == "returned":
+            return ("ok", "accepted")
+        # ... and a healthy call of the same generator still works and is named as in a fresh process
+        try:
+            m = g(PA(v=None, k=3))
+        except Exception as e:
+            return ("bad", "a healthy call after the failures raises: " + short_exc(e))
+        fresh_name = ("Fresh" if g is Fresh else "SharedResult")
+        if not m.name.startswith(fresh_name) or "(" not in m.name:
+            return ("bad", f"a healthy call after the failures returned a module named {m.name!r}")
+        return ("ok", errs[0])
+    if kind == "fallback":
+        state = dict(fail=True)
+
+        @h.generator
+        def Flaky(p: PA) -> h.Module:
+            if state["fail"]:
+                raise ValueError("not available")
+            m = h.Module()
+            m.x = h.Port()
+            return m
+
+        @h.generator
+        def Outer(p: PA) -> h.Module:  # tries the flaky implementation first, falls back to a plain one
+            m = h.Module()
+            m.s = h.Signal()
+            try:
+                m.i = Flaky(p)(x=m.s)
+            except ValueError:
+                m.i = Fresh(p)(x=m.s)
+            return m
+
+        try:
+            m1 = Outer(PA(k=2))
+            pk = h.to_proto(m1)
+            m2 = Outer(PA(k=2))
+        except Exception as e:
+            return ("bad", "an outer generator that handles an inner failure itself fails: " + short_exc(e))
+        if m1 is not m2 or len(pk.modules) != 2:
+            return ("bad", "the outer generator's result is not memoised / exported as usual after a handled inner failure")
+        state["fail"] = False
+        try:
+            h.to_proto(Flaky(PA(k=2)))
+            h.to_proto(Outer(PA(k=5)))
+        except Exception as e:
+            return ("bad", "after a handled inner failure, later calls fail: " + short_exc(e))
+        return ("ok", "handled")
+    raise ValueError(kind)
+
+
 # ------------------------------------------------------------------------------------------------ generators
 def _gen(item):
     import hdl21 as h
@@ -418,6 +511,13 @@ def run(ctx):
             ctx.outcome("gen:" + status)
             if status == "bad":
                 ctx.violation(dict(fault="generator_body", continuation=cont, what=("spurious circular dependency" if "ircular" in detail else detail[:50])), dict(kind="gen", item=[shape, cont, exc]), detail)
+    for kind in ("unnameable_fresh", "unnameable_handed", "fallback"):
+        status, detail = _gen_special(kind)
+        ctx.count(states=1, transitions=4, traces_validated_against_impl=1)
+        ctx.fam("generators_special", **{status: 1})
+        ctx.outcome("genspecial:" + status + ":" + str(detail)[:20])
+        if status == "bad":
+            ctx.violation(dict(fault="generator_" + kind, continuation="retry", what=detail[:50]), dict(kind="gen_special", item=kind), detail)
     ctx.sample(dict(kind="injected", item=list(items[len(items) // 2])))
     ctx.sample(dict(kind="real", item=list(ritems[len(ritems) // 2]) if ritems else None))
     ctx.sample(dict(kind="generator", item=["nested", "retry_fixed"]))
@@ -426,6 +526,10 @@ def run(ctx):
 
 def replay(body):
     c = body["case"]
+    if c["kind"] == "gen_special":
+        r = _gen_special(c["item"])
+        print("replay:", r)
+        return 1 if r[0] == "bad" else 0
     it = tuple(c["item"])
     r = _bomb(it) if c["kind"] == "injected" else _real(it) if c["kind"] == "real" else _gen(it)
     print("replay:", r)
